@@ -9,6 +9,7 @@ ap = argparse.ArgumentParser()
 ap.add_argument("prop"); ap.add_argument("src"); ap.add_argument("worktree")
 ap.add_argument("--tier", default="quick"); ap.add_argument("--name", default=None); ap.add_argument("--check", default=None)
 ap.add_argument("--skip-suite", action="store_true")
+ap.add_argument("--in-worktree", action="store_true", help="run the check against the patched worktree (PYTHONPATH) instead of patching /repo")
 a = ap.parse_args()
 ROOT = os.path.dirname(os.path.dirname(os.path.abspath(__file__)))
 patch = os.path.abspath(os.path.join(a.src, "patch.diff")); demo = os.path.abspath(os.path.join(a.src, "demo.py"))
@@ -31,21 +32,35 @@ if not a.skip_suite:
 sh("git checkout -- . && git clean -fdq", cwd=a.worktree)
 ok = res["demo_clean_rc"] == 0 and res["demo_patched_rc"] != 0 and res.get("suite_ok", True)
 res["confirmed"] = ok
-# run the check on /repo
-st = sh("git -C /repo status --short")[1].strip()
-if st:
-    print("/repo is not clean, refusing:", st); sys.exit(2)
-rc, out = sh("git -C /repo apply %s" % patch)
-if rc != 0:
-    print("patch does not apply to /repo:", out); sys.exit(2)
-try:
-    check = a.check or a.prop
-    t0 = time.time()
-    rc, out = sh("./check %s --tier %s" % (check, a.tier), cwd=ROOT, timeout=7200)
-    res["check"] = check; res["check_rc"] = rc; res["check_wall_s"] = round(time.time() - t0, 1)
-    res["check_lines"] = [l for l in out.split("\n") if l.startswith("VIOLATION") or l.startswith("  signature") or l.startswith("OK ") or l.startswith("KNOWN") or l.startswith("MACHINERY")][:12]
-finally:
-    sh("git -C /repo checkout -- .")
+# run the check: on /repo with the patch applied, or (--in-worktree) on the patched scratch worktree while /repo is left alone
+check = a.check or a.prop
+if a.in_worktree:
+    rc, out = sh("git apply %s" % patch, cwd=a.worktree)
+    try:
+        t0 = time.time()
+        ev = "/tmp/seed-evidence-%d" % os.getpid()
+        os.makedirs(ev, exist_ok=True)
+        wenv = dict(os.environ, PYTHONPATH=a.worktree, KAFE2_VERIF_TREE=a.worktree, KAFE2_VERIF_EVIDENCE_DIR=ev, PYTHONDONTWRITEBYTECODE="1")
+        rc, out = sh("./check %s --tier %s" % (check, a.tier), cwd=ROOT, env=wenv, timeout=7200)
+        res["check"] = check; res["check_rc"] = rc; res["check_wall_s"] = round(time.time() - t0, 1); res["ran_on"] = "patched worktree"
+        res["check_lines"] = [l for l in out.split("\n") if l.startswith("VIOLATION") or l.startswith("  signature") or l.startswith("OK ") or l.startswith("KNOWN") or l.startswith("MACHINERY")][:12]
+        shutil.rmtree(ev, ignore_errors=True)
+    finally:
+        sh("git checkout -- . && git clean -fdq", cwd=a.worktree)
+else:
+    st = sh("git -C /repo status --short")[1].strip()
+    if st:
+        print("/repo is not clean, refusing:", st); sys.exit(2)
+    rc, out = sh("git -C /repo apply %s" % patch)
+    if rc != 0:
+        print("patch does not apply to /repo:", out); sys.exit(2)
+    try:
+        t0 = time.time()
+        rc, out = sh("./check %s --tier %s" % (check, a.tier), cwd=ROOT, timeout=7200)
+        res["check"] = check; res["check_rc"] = rc; res["check_wall_s"] = round(time.time() - t0, 1)
+        res["check_lines"] = [l for l in out.split("\n") if l.startswith("VIOLATION") or l.startswith("  signature") or l.startswith("OK ") or l.startswith("KNOWN") or l.startswith("MACHINERY")][:12]
+    finally:
+        sh("git -C /repo checkout -- .")
 name = a.name or os.path.basename(os.path.normpath(a.src))
 dst = os.path.join(ROOT, "seeded", "%s-%s" % (a.prop, name))
 os.makedirs(dst, exist_ok=True)
